@@ -8,6 +8,8 @@ ENDINGS = [
     ['toobig'], ['truncfin'], ['truncrst'], ['unknown'],
     ['ok', 'finish', 'drop'], ['ok', 'drop'], ['ok', 'rstafter', 'drop'],
     ['ok', 'split', 'dropsend', 'droprecv'], ['ok', 'finish', 'split', 'droprecv', 'dropsend'],
+    ['ok', 'data', 'trailers', 'recv', 'rtrailers', 'stopstream', 'stopsending'],   # every other handle method, handle KEPT: not ended
+    ['ok', 'trailers', 'finish', 'drop'],
     ['ok', 'split', 'dropsend'],      # one half kept: the request has NOT ended
     ['ok'],                           # stream kept
     [],                               # resolver kept
@@ -72,11 +74,11 @@ class P(Property):
     driver_ml = 'C09_driver.ml'
     harness_bin = 'c09'
     rule = ('drain: the REAL server::Connection over SimQuic under the deterministic executor (accept task polled only when '
-            'woken; still pending at quiescence = hang). All histories of 0..3 (quick) / 0..4 (thorough) accepted requests x 18 '
+            'woken; still pending at quiescence = hang). All histories of 0..3 (quick) / 0..4 (thorough) accepted requests x 20 '
             'life cycles each (resolver dropped, FIN / RESET before HEADERS, QPACK-invalid, malformed, wrong first frame, field section too large (431), FIN / RESET inside the HEADERS frame, transport stream error, '
             'finish+drop, drop, RESET after HEADERS, split with the halves dropped in either order, one half kept, stream kept, '
             'resolver kept) x every arrival/acceptance order of the stream ids for <= 2 requests (thorough <= 3; beyond: stream-id order + one seeded other order) x interleavings of the life cycles x the peer GOAWAY at every position x '
-            'eager / lazy polling, plus a family with flow control closed on the control stream (closing GOAWAY pending, accept task resumed) and transport failure (XU), plus the structured family None -> lower-id arrival handed out -> arrival beyond the final GOAWAY refused while it is alive, plus seeded random histories (arrivals after GOAWAY, operations before hand-out, several '
+            'eager / lazy polling, plus GOAWAY reception variants (frame split at every byte with the accept task run in between, 2-byte push ids, MAX_PUSH_ID / CANCEL_PUSH / reserved frames in the same chunk), every other public method of the request handle called with the handle kept, plus a family with flow control closed on the control stream (closing GOAWAY pending, accept task resumed) and transport failure (XU), plus the structured family None -> lower-id arrival handed out -> arrival beyond the final GOAWAY refused while it is alive, plus seeded random histories (arrivals after GOAWAY, operations before hand-out, several '
             'GOAWAYs). Every 5th (thorough: 3rd) case is re-run in a seeded environment variant: default config (grease on), 3 uni-stream credits, other peer uni streams first / type byte pending, chunked control preamble, control stream late. Errors are observed as code + variant + transport close() code. Every implementation trace is judged by the extracted Coq drain monitor. non-trivial = distinct cases in '
             'which at least one request was handed out')
 
@@ -137,6 +139,19 @@ class P(Property):
                     for late in (['A0', 'A12', 'P'], ['A0', 'P', 'A12', 'P'], ['A12', 'A0', 'P']):
                         toks = head + late + a2 + ['P', 'A16', 'P']
                         out.append('drain ' + ','.join(toks))
+        # GOAWAY reception: the frame arrives in every 2-split with a run of the accept task in between, byte-wise,
+        # with a 2-byte push id, behind MAX_PUSH_ID / CANCEL_PUSH / reserved frames (env n)
+        for e1 in range(len(ENDINGS)):
+            a1 = ['x0:%s' % a for a in ENDINGS[e1]]
+            for pid, ln in ((0, 3), (64, 4)):
+                for k in range(1, ln):
+                    out.append('drain ' + ','.join(['A0', 'P'] + a1 + ['H%d:%d' % (pid, k), 'P', 'H+', 'P', 'P']))
+                    out.append('drain ' + ','.join(['H%d:%d' % (pid, k), 'P', 'A0', 'P', 'H+'] + a1 + ['P', 'P']))
+            out.append('drain.n ' + ','.join(['A0', 'P'] + a1 + ['P', 'G0', 'P', 'P']))
+            out.append('drain.n ' + ','.join(['A0', 'P', 'G64'] + a1 + ['P', 'G0', 'P']))
+            out.append('drain.gn3 ' + ','.join(['G64', 'A0', 'P'] + a1 + ['P', 'P']))
+        out.append('drain H64:1,P,H+,P,H64:3,P,H+,P')
+        out.append('drain H64:1,P,H+,P,H65:2,P,H+,P')
         # control-stream flow control: the closing GOAWAY of accept() pends, the accept task is resumed after W
         for e1 in range(len(ENDINGS)):
             a1 = ['x0:%s' % a for a in ENDINGS[e1]]
@@ -147,8 +162,8 @@ class P(Property):
                         ['A0', 'P', 'XU'] + a1 + ['G0', 'P']):
                 out.append('drain ' + ','.join(pat))
         # seeded random histories
-        acts = ['dropres', 'ok', 'fin', 'rst', 'badqpack', 'malformed', 'unexpected', 'finish', 'rstafter', 'drop', 'split', 'dropsend', 'droprecv', 'toobig', 'truncfin', 'truncrst', 'unknown']
-        wts = [3, 6, 2, 2, 1, 2, 1, 3, 2, 5, 3, 4, 4, 2, 1, 2, 2]
+        acts = ['data', 'trailers', 'recv', 'rtrailers', 'stopstream', 'stopsending', 'dropres', 'ok', 'fin', 'rst', 'badqpack', 'malformed', 'unexpected', 'finish', 'rstafter', 'drop', 'split', 'dropsend', 'droprecv', 'toobig', 'truncfin', 'truncrst', 'unknown']
+        wts = [1, 2, 1, 1, 1, 1, 3, 6, 2, 2, 1, 2, 1, 3, 2, 5, 3, 4, 4, 2, 1, 2, 2]
         for _ in range(6000 if tier == 'quick' else 200000):
             L = rng.randint(4, 30)
             toks, na = [], 0
@@ -163,7 +178,7 @@ class P(Property):
                 elif r < 0.42:
                     toks.append('P')
                 elif r < 0.50:
-                    toks.append('G%d' % rng.choice([0, 0, 0, 1, 2]))
+                    toks.append('G%d' % rng.choice([0, 0, 0, 1, 2, 64, 64, 16384]))
                 elif r < 0.53:
                     toks.append(rng.choice(['b', 'W', 'b', 'W', 'XU']))
                 elif na > 0:
@@ -174,7 +189,7 @@ class P(Property):
             out.append('drain ' + ','.join(toks))
         # environment variants (the model does not depend on them): default configuration (grease on), only 3 uni
         # stream credits, other peer uni streams before the control stream, chunked preamble, late control stream
-        envs = ['.g', '.g3', '.3', '.u', '.q', '.t', '.l', '.gu3', '.gqt3', '.gul3', '.qtl']
+        envs = ['.g', '.g3', '.3', '.u', '.q', '.t', '.l', '.n', '.gn', '.gu3', '.gqt3', '.gul3', '.qtln']
         step = 5 if tier == 'quick' else 3
         extra = []
         for i in range(0, len(out), step):
